@@ -15,8 +15,8 @@ func init() {
 		ID:        "C16",
 		Title:     "A missing spec means `[OPTIONS] ARG1 ARG2 ...`",
 		Technique: "metamorphic runtime monitor: twin real applications, one declared without a spec and one with the explicit spec, run on the same command lines; usage line read back from the rendered help",
-		Rule: "random declaration sets (0-5 options of every kind, 0-3 arguments in random declaration order); twin A has no spec, twin B the explicit '[OPTIONS] ARG1 ARG2 ...' ('[OPTIONS]' omitted without options); " +
-			"command lines derived from that spec (all spellings, shuffled option runs) and mutated; the outcome (acceptance, every bound value) must be identical, and the usage line of both helps must read " +
+		Rule: "random declaration sets (0-5 options of every kind, 0-3 arguments in random declaration order, some arguments backed by a set environment variable); twin A has no spec, twin B the explicit '[OPTIONS] ARG1 ARG2 ...' ('[OPTIONS]' omitted without options); " +
+			"command lines derived from that spec (all spellings, shuffled option runs) and mutated; the outcome (acceptance, every bound value) must be identical - also on a second Run of the same two application objects with another command line - and the usage line of both helps must read " +
 			"'Usage: app <that spec>'. The reference verdict is also compared (as in C01). non-trivial = >=1 declared element and >=1 token; distinct by (decl, argv).",
 		Assumptions: []string{"the usage line is the first line starting with 'Usage:' of the help printed for --help"},
 		Cases:       tiered(30000, 1000000),
@@ -41,6 +41,9 @@ func runC16(c *core.Ctx) {
 	c.R.Shuffle(len(p.Args), func(i, j int) { p.Args[i], p.Args[j] = p.Args[j], p.Args[i] })
 	if pi%7 == 0 {
 		p.Args = nil
+	}
+	for _, a := range p.Args {
+		a.EnvSet = pi%3 == 0 && c.R.Intn(2) == 0 // a set environment variable must not change the generated spec
 	}
 	expl := gen.ImplicitProg(p) // p.Spec == "" -> explicit twin with AST
 	argv := gen.Argv(c.R, expl, gen.Cfg{})
@@ -72,6 +75,24 @@ func runC16(c *core.Ctx) {
 		c.Inc("accepted_pairs")
 	} else {
 		c.Inc("rejected_pairs")
+	}
+	if c.Index%4 == 1 {
+		// the same two application objects run twice: the generated spec must not drift from one Run to the next
+		argv2 := gen.Argv(c.R, expl, gen.Cfg{})
+		if !hasHelp(argv2) {
+			drive.Quiet()
+			c.Journal(CaseDesc{Decl: d.Decl, Spec: expl.Spec, Argv: argv2, Note: fmt.Sprintf("second Run on the same application objects, after %q", argv)})
+			ba, bb := drive.Build(drive.Single(p)), drive.Build(drive.Single(expl))
+			a1, b1 := drive.OutcomeKey(p, ba.Run(argv)), drive.OutcomeKey(p, bb.Run(argv))
+			a2, b2 := drive.OutcomeKey(p, ba.Run(argv2)), drive.OutcomeKey(p, bb.Run(argv2))
+			c.LibDone()
+			c.Eval()
+			if a1 != b1 || a2 != b2 {
+				c.Violation("run twice on the same objects, the command without spec and its explicit twin differ", map[string]interface{}{"first_no_spec": a1, "first_explicit": b1, "second_argv": argv2, "second_no_spec": a2, "second_explicit": b2}, nil)
+				return
+			}
+			c.Inc("second_runs_equal")
+		}
 	}
 	if c.Index%10 == 0 {
 		c.Journal(CaseDesc{Decl: d.Decl, Spec: expl.Spec, Argv: []string{"--help"}, Note: "usage line of both twins"})
